@@ -6,6 +6,7 @@ import PdtVerif.Lemmas.NgramRemap
 import PdtVerif.Lemmas.NgramShape
 import PdtVerif.Lemmas.NgramLevel
 import PdtVerif.Lemmas.NgramFlat
+import PdtVerif.Lemmas.NgramBuildMem
 import PdtVerif.Lemmas.NgramArpa
 /-!
 # C06 — the n-gram lookup model computes Katz back-off on any table
@@ -28,6 +29,12 @@ Layers:
 * `C06_flat` – they always do: for every table `buildTrie` accepts, the buffers it lays out pass
   the check (`C06_closure`, `C06_levels_layout`, `C06_child_scan` are its pieces), hence
   `C06_lookup` / `C06_model`: rows of the model = Katz recursion on the raw table, unconditionally.
+* `C06_build_result`, `C06_build_pure`, `C06_build_reuse`, `C06_reuse_model` – construction as a
+  procedure on the caller's objects (`Model/NgramBuildMem.lean`: a heap of list and dict objects,
+  `destructive` decides whether the code edits copies or the caller's own table): the buffers are a
+  function of the table's contents at call time only, a non-destructive construction leaves every
+  existing object unchanged (table' = table), so any number of models built from one table object –
+  with any start symbols – are each the model of the ORIGINAL table and evaluate its Katz recursion.
 -/
 namespace PdtVerif.NgramTrie
 open PdtVerif.Backoff
@@ -584,6 +591,119 @@ example := C06_full_get_vec exBuf (by decide) 2 0 2 [[1, 0], [0, 1], [1, 1]] (by
   [3, 1] (by decide) (by decide) 1 (by decide)
 -- … and on a non-contiguous view (transposed batch-first tensor), chunk size 2
 example := C06_chunk_layout exBuf 2 0 ⟨[1, 0, 1, 0, 1, 1], 0, 1, 3, 3, 2⟩ 2 (by decide)
+
+/-! ## construction and the caller's table (`Model/NgramBuildMem.lean`) -/
+
+/-- **C06_build_result.** The buffers that the procedure `buildTrieMem` (heap in, heap out; it edits
+the caller's own list and dict objects when `destructive`, fresh copies otherwise) returns are the pure
+function `buildTrie` of what the table reference shows at call time – independent of `destructive`
+and of everything else in the heap. (All theorems about `buildTrie` are theorems about the
+procedure the driver runs.) -/
+theorem C06_build_result (d : Bool) (V : Nat) (sos : Int) (m : Mem) (l : Nat) :
+    (buildTrieMem d V sos m l).1 = buildTrie V sos (m.table l) :=
+  buildTrieMem_fst d V sos m l
+
+/-- **C06_build_pure.** A non-destructive construction – successful or rejected with `ValueError` –
+leaves every object that existed before the call unchanged (the heap only grows by the copies), so
+every valid table reference of the caller, the one handed over included, shows the same table
+afterwards: table' = table. -/
+theorem C06_build_pure (V : Nat) (sos : Int) (m : Mem) (l : Nat) :
+    ((buildTrieMem false V sos m l).2.dicts.take m.dicts.length = m.dicts ∧
+     (buildTrieMem false V sos m l).2.lists.take m.lists.length = m.lists) ∧
+    ∀ k, k < m.lists.length → (∀ a ∈ m.list k, a < m.dicts.length) →
+      (buildTrieMem false V sos m l).2.table k = m.table k :=
+  ⟨buildTrieMem_frame V sos m l, fun k hk ha => (buildTrieMem_frame V sos m l).table k hk ha⟩
+
+/-- **C06_build_reuse.** Any sequence of non-destructive constructions from the same table
+reference, each with its own vocabulary size and start symbol (outside, then inside the vocabulary,
+…): step `k` returns exactly `buildTrie V_k sos_k` of the ORIGINAL table, and the table is still the
+original one at the end. -/
+theorem C06_build_reuse (l : Nat) (steps : List (Bool × Nat × Int)) (m : Mem)
+    (hkeep : ∀ s ∈ steps, s.1 = false) (hl : l < m.lists.length)
+    (ha : ∀ a ∈ m.list l, a < m.dicts.length) :
+    (buildSession m l steps).1 = steps.map (fun s => buildTrie s.2.1 s.2.2 (m.table l)) ∧
+    (buildSession m l steps).2.table l = m.table l :=
+  ⟨(buildSession_pure l steps m hkeep hl ha).1, (buildSession_pure l steps m hkeep hl ha).2.table l hl ha⟩
+
+/-- **C06_reuse_model.** A caller who holds one table `dicts` builds any number of models from it,
+non-destructively: every model that gets built evaluates – all positions, chunks of any size – the
+Katz recursion on `dicts` itself, for its own start symbol. -/
+theorem C06_reuse_model (dicts : List (List Item)) (steps : List (Bool × Nat × Int))
+    (hkeep : ∀ s ∈ steps, s.1 = false) (hnd : ∀ d ∈ dicts, keysNodup d) (hv : valsOK dicts = true)
+    (i : Nat) (d : Bool) (V : Nat) (sos : Int) (hi : steps[i]? = some (d, V, sos)) (b : Buffers)
+    (hb : (buildSession (Mem.ofTable dicts) 0 steps).1[i]? = some (some b))
+    (B : Nat) (hist : List (List Int))
+    (hrows : ∀ r ∈ hist, r.length = B) (htok : ∀ r ∈ hist, ∀ t ∈ r, validTok V sos t)
+    (chunk : Nat) (hchunk : 1 ≤ chunk) :
+    fullChunked b V sos B hist chunk =
+      (List.range (hist.length + 1)).map (fun t =>
+        (List.range B).map (fun bb =>
+          (List.range V).map (fun w => LogP.ofOption
+            (bo (ofList (tableOf dicts)) (Int.ofNat w) (context b.N sos (col hist bb) t))))) := by
+  have hval := Mem.ofTable_valid dicts
+  have h := (buildSession_pure 0 steps (Mem.ofTable dicts) hkeep hval.1 hval.2).1
+  rw [h, Mem.ofTable_table, List.getElem?_map, hi] at hb
+  simp only [Option.map_some, Option.some.injEq] at hb
+  exact C06_model V sos dicts b hb hnd hv B hist hrows htok chunk hchunk
+
+/-- **C06_build_consumed.** What `destructive=True` is documented to allow: after a successful
+destructive construction the caller's list object is empty (every dict was popped off it). -/
+theorem C06_build_consumed (V : Nat) (sos : Int) (m : Mem) (l : Nat) (hl : l < m.lists.length)
+    (hb : (buildTrieMem true V sos m l).1.isSome = true) :
+    (buildTrieMem true V sos m l).2.list l = [] :=
+  buildTrieMem_consumed V sos m l hl hb
+
+/-- **C06_offset_width.** The integer type that `_build_trie` finally gives `offsets` (uint8 / int16 /
+int32 / int64, `offBits`) holds every offset it wrote – no wrap-around in the stored buffer – and is
+the narrowest one that does (given that the offsets fit into 64 bits at all: the model counts in
+unbounded naturals). The type of the *working* buffer during construction is not modelled (the
+two width defects of the pinned tree lived there; corpus 01, 02 keep them). -/
+theorem C06_offset_width (V : Nat) (sos : Int) (dicts : List (List Item)) (b : Buffers)
+    (hb : buildTrie V sos dicts = some b)
+    (h64 : ∀ i, b.offsets.getD i 0 ≤ 9223372036854775807) :
+    (∀ i, b.offsets.getD i 0 ≤ intMax b.offBits) ∧
+    (b.offsets.size ≠ 0 →
+      (b.offBits = 16 → ∃ i, 255 < b.offsets.getD i 0) ∧
+      (b.offBits = 32 → ∃ i, 32767 < b.offsets.getD i 0) ∧
+      (b.offBits = 64 → ∃ i, 2147483647 < b.offsets.getD i 0)) :=
+  ⟨buildTrie_offsets_fit V sos dicts b hb h64, buildTrie_offsets_least V sos dicts b hb⟩
+
+-- on `exDicts`: five offsets cells … all below 256, stored as uint8
+example : (buildTrie 2 (-1) exDicts).map (fun b => (b.offBits, decide (∀ i < b.offsets.size, b.offsets.getD i 0 ≤ 255))) =
+    some (8, true) := by decide +kernel
+
+/-- A table that is rejected half-way through the checking loop (`V = 2`, `sos = 0`): the trigram
+`(0, 0, 0)` is fine and makes the loop insert the implicit bigram `(0, 0)`, the next one mentions
+the unknown token `5`. -/
+def exBadDicts : List (List Item) :=
+  [[⟨[0], .fin (-1), .fin 0⟩], [], [⟨[0, 0, 0], .fin (-1), .fin 0⟩, ⟨[0, 5, 0], .fin (-2), .fin 0⟩]]
+
+/-- **Witness** (kernel evaluation): on the sparse trigram table `exDicts` the non-destructive
+construction returns the caller's table as it was, the destructive one does not (list emptied,
+unigram dict completed and re-keyed `-1 → 2`, bigram dict emptied) – the heap model can tell the
+two apart, `C06_build_pure` is not true by construction. Also: a non-destructive construction that
+is REJECTED leaves the table alone (`exBadDicts`; `exDicts` with `sos = 0`, which then mentions the
+unknown token `-1`), whereas the rejected destructive one has already inserted the implicit bigram
+`(0, 0)` into the caller's (empty) bigram dict. -/
+theorem C06_build_destructive_witness :
+    (buildTrieMem false 2 (-1) (Mem.ofTable exDicts) 0).2.table 0 = exDicts ∧
+    (buildTrieMem true 2 (-1) (Mem.ofTable exDicts) 0).2.table 0 = [] ∧
+    ((buildTrieMem true 2 (-1) (Mem.ofTable exDicts) 0).2.dict 0).map (·.key) = [[0], [2], [1]] ∧
+    (buildTrieMem true 2 (-1) (Mem.ofTable exDicts) 0).2.dict 1 = [] ∧
+    (buildTrieMem false 2 0 (Mem.ofTable exDicts) 0).1.isNone = true ∧
+    (buildTrieMem false 2 0 (Mem.ofTable exDicts) 0).2.table 0 = exDicts ∧
+    (buildTrieMem false 2 0 (Mem.ofTable exBadDicts) 0).1.isNone = true ∧
+    (buildTrieMem false 2 0 (Mem.ofTable exBadDicts) 0).2.table 0 = exBadDicts ∧
+    (buildTrieMem true 2 0 (Mem.ofTable exBadDicts) 0).1.isNone = true ∧
+    ((buildTrieMem true 2 0 (Mem.ofTable exBadDicts) 0).2.dict 1).map (·.key) = [[0, 0]] := by
+  decide +kernel
+
+-- a session through the theorems: sos outside the vocabulary, the same again, then (rejected: the
+-- table mentions -1) sos = 0 – every step is `buildTrie` of `exDicts`, which is still there at the end
+example := C06_build_reuse 0 [(false, 2, -1), (false, 2, -1), (false, 2, 0)] (Mem.ofTable exDicts)
+  (by decide) (by decide) (by decide)
+example : ((buildSession (Mem.ofTable exDicts) 0 [(false, 2, -1), (false, 2, -1), (false, 2, 0)]).1.map
+    Option.isSome) = [true, true, false] := by decide +kernel
 
 end PdtVerif.NgramTrie
 
